@@ -152,6 +152,8 @@ def gen_density(tier, rng):
         which = rng.choice(["st", "ft", "both"])
         cases.append(_dcase(rho, z, t if which != "ft" else None, t if which != "st" else None))
     cases += big_shift_copies(cases, "rho", rng, 150 if tier == "quick" else 1500, lambda c: True)
+    # depths far from zero too (pressure in Pa, dbar below 2^24): steps of 1 / 64 beside 2^24 .. 2^33 need double precision
+    cases += big_shift_copies(cases, "z", rng, 150 if tier == "quick" else 1500, lambda c: len(c.get("z", [])) >= 2)
     return cases
 
 
